@@ -75,6 +75,9 @@ type L2Op struct {
 	Coins []HookSend // To unused
 	// exec
 	Inner []L2Op
+	// fault-injected histories (monitor-only): fail the FaultAt-th keeper call of this message
+	FaultAt    int
+	FaultPanic bool
 }
 
 type BInfo struct {
